@@ -23,17 +23,21 @@ Verdict(c) ==
   LET d == c.dev
       r == c.req
   IN IF c.res = "ok"
-     THEN LET me == Meets3(c)
-              ra == Ranges3(c)
-          IN [res |-> "ok", meets |-> me, ranges |-> ra, inst |-> B3(InstOk(c)), refuse |-> NA,
+     THEN LET mi == MeetsIt(c)
+              ri == RangesIt(c)
+              ii == InstIt(c)
+              me == It3(mi)
+              ra == It3(ri)
+          IN [res |-> "ok", meets |-> me, ranges |-> ra, inst |-> It3(ii), refuse |-> NA,
+              bad |-> <<Bad(mi), Bad(ri), Bad(ii)>>,
               model |-> IF ~Judged(c) THEN NA
                         ELSE IF me = 2 /\ ra = 2 THEN B3(Feas(d, r, 2))
                         ELSE IF me >= 1 /\ ra >= 1 THEN B3(Feas(d, r, 1)) ELSE NA]
-     ELSE [res |-> "refused", meets |-> NA, ranges |-> NA, inst |-> NA, model |-> NA,
+     ELSE [res |-> "refused", meets |-> NA, ranges |-> NA, inst |-> NA, model |-> NA, bad |-> <<{}, {}, {}>>,
            refuse |-> IF ~Judged(c) THEN NA
                       ELSE IF Feas(d, r, 2) THEN 0 ELSE IF Feas(d, r, 1) THEN 1 ELSE 2]
 
-Todo == [res |-> "todo", meets |-> NA, ranges |-> NA, inst |-> NA, refuse |-> NA, model |-> NA]
+Todo == [res |-> "todo", meets |-> NA, ranges |-> NA, inst |-> NA, refuse |-> NA, model |-> NA, bad |-> <<{}, {}, {}>>]
 Init == tid \in 1..Len(CASES) /\ done = FALSE /\ v = Todo
 Next == /\ ~done
         /\ done' = TRUE
